@@ -224,13 +224,20 @@ def transposeExt (t : IdxT) (e : Ext) : Except Err Ext :=
         Ext.ofVals t tp [x1]
       else .ok (Ext.default tp)
 
-/-- `layout_transpose<L>::mapping<Extents>`: the nested mapping over the transposed extents -/
+/-- `layout_transpose<L>::mapping<Extents>`: the nested mapping over the transposed extents and the
+    extents of the view, computed once by the constructor (`_extents{transpose_extents(map.extents())}`) -/
 structure TMap where
   lay : Lay
   nested : Ext
+  ext : Ext
   deriving Repr
 
-def TMap.extents (t : IdxT) (m : TMap) : Except Err Ext := transposeExt t m.nested
+/-- `explicit mapping(nested_mapping_t const& map)` -/
+def TMap.make (t : IdxT) (l : Lay) (nested : Ext) : Except Err TMap := do
+  let e ← transposeExt t nested
+  pure { lay := l, nested := nested, ext := e }
+
+def TMap.extents (m : TMap) : Ext := m.ext
 def TMap.reqSpan (t : IdxT) (m : TMap) : Except Err Int := C19.reqSpan m.lay t m.nested
 
 /-- `operator()(i, j) = _nestedMapping(j, i)` converted to `size_type` -/
